@@ -208,6 +208,35 @@ def explore_after_mutation(ctx, f: Func, g: CFG, ne: Dict[int, Set[str]], start:
     return wit
 
 
+def _index_updated_after_failure(ctx, f: Func, g: CFG, start: int) -> Optional[str]:
+    """An index-content update (anything but invalidate) reachable from the exceptional edge of the
+    mutation node, before the exception leaves the function."""
+    starts = [t for t, lab in g.succ[start] if lab == "exc"]
+    seen: Set[int] = set()
+    todo = list(starts)
+    while todo:
+        x = todo.pop()
+        if x in seen or x in (g.exit, g.rexit):
+            continue
+        seen.add(x)
+        nd = g.nodes[x]
+        if nd.ast is not None:
+            m = _maintenance(ctx, f, nd)
+            direct = set()
+            for c in nd.calls():
+                for tg in ctx.res.resolve_call(c, f, quiet=True):
+                    if isinstance(tg, Func) and tg.cls == "Index":
+                        direct.add(tg.name)
+            bad = direct - {"invalidate", "valid", "empty", "latest_time", "__len__"}
+            if bad:
+                return f"index.{sorted(bad)[0]}()"
+            if "invalidate" in direct:
+                continue  # invalidated: nothing after it can leave a valid stale index
+        for t, lab in g.succ[x]:
+            todo.append(t)
+    return None
+
+
 def _path_lines(g: CFG, path: List[int]) -> str:
     out = []
     for i in path:
@@ -259,6 +288,14 @@ def maintenance_on_every_exit(ctx):
                          if p is None else
                          f"exit reachable with a possibly valid index and no maintenance: {_path_lines(g, p)}",
                          ctx.prog.loc(nd.ast), {"path": _path_lines(g, p)} if p else {})
+            # dual obligation: when the storage call itself raises, the index may be invalidated but must
+            # not be updated/reset as if the change had happened
+            upd = _index_updated_after_failure(ctx, f, g, nd.id)
+            yield Ob("C06.R4", ["C06", "C13", "C01", "C07"] + (["C02"] if f.name in ("_remove_helper", "_reset_database") else []),
+                     f"{f.qual} | {what}{occ(f, nd.ast)} fails | index not updated as if it had succeeded", upd is None,
+                     "a failing storage call can only be followed by invalidation" if upd is None else
+                     f"when the storage call raises, `{upd}` still runs: the index is emptied/updated (and stays valid) "
+                     f"although storage was not changed", ctx.prog.loc(nd.ast))
             compound = any(e in es for e in ("PRIMARY.flush", "PRIMARY.fsync", "PRIMARY.open")) or \
                 any(e.startswith(("FS.copy", "FS.replace")) for e in es)
             if compound:
